@@ -32,7 +32,7 @@ def build(tier, seed):
     rnd = random.Random(seed)
     c1 = list(fam.chains(1))
     c2 = [c for c in fam.chains(2) if fam.chain_depth(c[1][0]) == 2]
-    sb = list(fam.siblings())
+    sb = list(fam.siblings()) + list(fam.nested_expr_siblings())
     c3 = [c for c in fam.chains(3) if fam.chain_depth(c[1][0]) == 3]
     # depth 3 is sampled: a FIXED pool (so that every member was triaged once); the seed only chooses
     # which part of the pool the quick tier visits
